@@ -49,7 +49,7 @@ Verdict(s, obs) ==
             ELSE IF obs.e.k = "cap" /\ no <= n THEN "prefix" ELSE "reject"
      ELSE IF s.e.k = "err" THEN
             IF obs.e.k = "err" /\ n = no
-            THEN IF s.e.v.t = "ierr" THEN (IF obs.e.user THEN "reject" ELSE "full")
+            THEN IF s.e.v.t = "ierr" THEN (IF obs.e.v.t = "str" THEN "full" ELSE "reject")
                  ELSE (IF AgreeV(s.e.v, obs.e.v) THEN "full" ELSE "reject")
             ELSE IF obs.e.k = "cap" /\ no <= n THEN "prefix" ELSE "reject"
      ELSE IF s.e.k = "halt" THEN
